@@ -635,13 +635,13 @@ func (e *ownEngine) analyse(fn *ssa.Function) *fnOwn {
 				rp.known[k] = true
 			}
 			if ret != nil {
-				for _, r := range ret.Results {
+				for _, r := range returnedValues(ret) {
 					rp.po.retNil = append(rp.po.retNil, isNilConst(r))
 				}
 				if len(ret.Results) == 1 {
-					if cs, ok := constString(ret.Results[0]); ok {
+					if cs, ok := constString(returnedValues(ret)[0]); ok {
 						rp.po.ret = cs
-					} else if a, ok := s.assume[ret.Results[0]]; ok {
+					} else if a, ok := s.assume[returnedValues(ret)[0]]; ok {
 						rp.po.ret = a
 					}
 				}
@@ -664,13 +664,13 @@ func (e *ownEngine) analyse(fn *ssa.Function) *fnOwn {
 				if nonLocal(k) {
 					po := pathOutcome{total: t, trace: trace, pos: s.lastPos, stored: s.stored[k], zero: s.zero}
 					if ret != nil {
-						for _, r := range ret.Results {
+						for _, r := range returnedValues(ret) {
 							po.retNil = append(po.retNil, isNilConst(r))
 						}
 						if len(ret.Results) == 1 {
-							if cs, ok := constString(ret.Results[0]); ok {
+							if cs, ok := constString(returnedValues(ret)[0]); ok {
 								po.ret = cs
-							} else if a, ok := s.assume[ret.Results[0]]; ok {
+							} else if a, ok := s.assume[returnedValues(ret)[0]]; ok {
 								po.ret = a
 							}
 						}
@@ -1229,7 +1229,7 @@ func (e *ownEngine) registerHook(fn *ssa.Function, in ssa.Instruction, host stri
 			// does the host get returned? recorded for delegates-to-result summaries
 			eachInstr(fn, func(_ *ssa.BasicBlock, _ int, x ssa.Instruction) {
 				if ret, ok := x.(*ssa.Return); ok {
-					for ri, r := range ret.Results {
+					for ri, r := range returnedValues(ret) {
 						if isReqType(r.Type()) && e.objKey(r) == host {
 							s.delegRes[outer] = ri
 						}
